@@ -402,6 +402,16 @@ Proof.
   - destruct H1 as [H1|H1]; [subst; apply Hn; eapply Hsub; exact H2|exact (IH k Hnd' H1 H2)].
 Qed.
 
+(* inside this guard no variable holds a flavor: the flavors section of the snapshot is empty *)
+Lemma no_flavor_forms : forall l, forallb var_ok l = true -> flat_map flavor_forms l = [].
+Proof.
+  induction l as [|[n [ov d c]] l IH]; intro H; [reflexivity|].
+  cbn [forallb] in H. apply andb_true_iff in H. destruct H as [Hkv Hl].
+  cbn [flat_map]. rewrite (IH Hl). rewrite app_nil_r.
+  destruct ov as [v|]; [|reflexivity]. destruct v; try reflexivity. destruct c; [reflexivity|].
+  unfold var_ok in Hkv. cbn [fst snd snap_safe self_evaluating] in Hkv. rewrite andb_false_r in Hkv. discriminate.
+Qed.
+
 (* Theorem 2: a session inside the guard whose keys are unique (which every history guarantees) is rebuilt by loading
    its snapshot; every form of the snapshot loads; the snapshot of the rebuilt session is the same list of forms *)
 Theorem session_roundtrip : forall s, keys_nodup s -> sess_ok s = true ->
@@ -418,7 +428,8 @@ Proof.
   assert (Hload : load_forms empty_session (snapshot s)
                   = (mkS (consts_of sv ++ vars_of sv) sf,
                      repeat true (List.length (consts_of sv)) ++ repeat true (2 * List.length (vars_of sv)) ++ repeat true (List.length sf))).
-  { unfold snapshot. fold sv sf. rewrite load_forms_app. unfold empty_session.
+  { unfold snapshot. fold sv sf. rewrite (no_flavor_forms sv Hsvok). cbn [app].
+    rewrite load_forms_app. unfold empty_session.
     rewrite (load_consts sv [] [] Hsvok Hsvnd); [|intros k _ []|intros k []]. cbn [app].
     rewrite load_forms_app.
     rewrite (load_vars sv (consts_of sv) [] Hsvok Hsvnd).
@@ -517,9 +528,18 @@ Proof.
                | _, _ => false
                end) l l = true).
   { induction l as [|a r IH]; intro H; [reflexivity|]. inversion H; subst. rewrite H2. cbn [andb]. apply IH. assumption. }
+  assert (Halls : forall l, Forall (fun kv : string * obj => obj_eqb (snd kv) (snd kv) = true) l ->
+            (fix alls (l1 l2 : list (string * obj)) : bool :=
+               match l1, l2 with
+               | [], [] => true
+               | (k1, v1) :: r1, (k2, v2) :: r2 => (k1 =? k2)%string && obj_eqb v1 v2 && alls r1 r2
+               | _, _ => false
+               end) l l = true).
+  { induction l as [|[k w] r IH]; intro H; [reflexivity|]. inversion H as [|? ? Hw Hr]; subst. cbn [snd] in Hw.
+    rewrite String.eqb_refl, Hw. cbn [andb]. apply IH. exact Hr. }
   induction v using obj_ind2; cbn [obj_eqb];
     try reflexivity; try apply Z.eqb_refl; try apply String.eqb_refl;
-    rewrite ?String.eqb_refl, ?Hall, ?IHv, ?Bool.eqb_reflx by assumption; try reflexivity.
+    rewrite ?String.eqb_refl, ?Hall, ?Halls, ?IHv, ?Bool.eqb_reflx by assumption; try reflexivity.
   - destruct (list_eq_dec Nat.eq_dec dims dims); [reflexivity|contradiction].
   - induction kvs as [|[k w] r IH]; [reflexivity|]. inversion H as [|? ? [Hk Hw] Hr]; subst. cbn [fst snd] in *.
     rewrite Hk, Hw. cbn [andb]. apply IH. exact Hr.
@@ -543,3 +563,191 @@ Proof.
   intros hist s Hrun Hok. destruct (history_roundtrip hist s Hrun Hok) as (H1 & H2 & H3).
   unfold meets_spec. rewrite H3, H1, H2. rewrite session_eqb_refl, objs_eqb_refl. reflexivity.
 Qed.
+
+(* ---- instances: the value written by the snapshot for an instance evaluates back to it ---- *)
+
+(* the guard of the theorem: instances (nested without bound) whose instance variables hold snap_safe values *)
+Fixpoint snap_safe_i (v : obj) : bool :=
+  match v with
+  | Inst f slots =>
+      negb (f =? "inst")%string &&
+      (fix go (l : list (string * obj)) : bool :=
+         match l with [] => true | (k, w) :: r => snap_safe_i w && go r end) slots
+  | Flv _ _ _ _ _ _ => false
+  | _ => snap_safe v
+  end.
+(* every instance inside v belongs to a flavor the environment knows, with exactly its instance variables *)
+Fixpoint insts_in (e : env) (v : obj) : bool :=
+  match v with
+  | Inst f slots =>
+      match lookup e f with
+      | Some (Flv _ ivars _ _ _ _) => strings_eqb (map fst ivars) (map fst slots)
+      | _ => false
+      end && keys_nodupb (map fst slots) &&
+      (fix go (l : list (string * obj)) : bool := match l with [] => true | (_, w) :: r => insts_in e w && go r end) slots
+  | _ => true
+  end.
+
+Definition setf_slot (k : string) (fw : obj) : obj := L [Sym "setf"; L [Sym "slot-value"; Sym "inst"; quote (Sym k)]; fw].
+Definition inst_let (f : string) (setfs : list obj) : obj :=
+  L ([Sym "let"; L [L [Sym "inst"; L [Sym "make-instance"; quote (Sym f)]]]] ++ setfs ++ [Sym "inst"]).
+
+(* the body of the instance form, as eval runs it *)
+Definition run_inst (e : env) (fl : string) : list (string * obj) -> list obj -> res obj :=
+  fix go (slots : list (string * obj)) (l : list obj) : res obj :=
+    match l with
+    | [] => Ok Nil
+    | [Sym r] => if (r =? "inst")%string then Ok (Inst fl slots) else Err EUnmodelled
+    | L [Sym sf; L [Sym sv; Sym iv'; L [Sym q; Sym k]]; vf] :: rest =>
+        if (sf =? "setf")%string && (sv =? "slot-value")%string && (iv' =? "inst")%string && (q =? "quote")%string then
+          bind (eval (("inst", Inst fl slots) :: e) vf) (fun v =>
+            match slot_set slots k v with
+            | Some s' => go s' rest
+            | None => Err EType
+            end)
+        else Err EUnmodelled
+    | _ => Err EUnmodelled
+    end.
+
+Lemma eval_inst_let : forall e f n ivars i g s d setfs,
+  lookup e f = Some (Flv n ivars i g s d) ->
+  eval e (inst_let f setfs) = run_inst e f ivars (setfs ++ [Sym "inst"]).
+Proof.
+  intros e f n ivars i g s d setfs Hl. unfold inst_let. cbn [app].
+  unfold quote. cbn. rewrite Hl. reflexivity.
+Qed.
+
+Lemma slot_set_mid : forall done k o w rest, ~ In k (map fst done) ->
+  slot_set (done ++ (k, o) :: rest) k w = Some (done ++ (k, w) :: rest).
+Proof.
+  induction done as [|[k' v'] r IH]; intros k o w rest Hn; cbn [app slot_set].
+  - rewrite String.eqb_refl. reflexivity.
+  - destruct (k' =? k) eqn:E.
+    + apply String.eqb_eq in E. subst. exfalso. apply Hn. left. reflexivity.
+    + rewrite IH; [reflexivity|]. intro Hin. apply Hn. right. exact Hin.
+Qed.
+
+Lemma run_inst_all : forall e fl todo fws done olds,
+  Forall2 (fun kv fw => forall cur, eval (("inst", Inst fl cur) :: e) fw = Ok (snd kv)) todo fws ->
+  map fst olds = map fst todo -> NoDup (map fst done ++ map fst todo) ->
+  run_inst e fl (done ++ olds) (map (fun p => setf_slot (fst p) (snd p)) (combine (map fst todo) fws) ++ [Sym "inst"])
+  = Ok (Inst fl (done ++ todo)).
+Proof.
+  intros e fl todo. induction todo as [|[k w] todo IH]; intros fws done olds HF Hk Hnd.
+  - inversion HF; subst. destruct olds; [|discriminate]. cbn. reflexivity.
+  - inversion HF as [|? fw ? fws' Hfw HF']; subst. destruct olds as [|[k0 o] olds]; [discriminate|].
+    cbn [map fst] in Hk. injection Hk as Hk0 Hk. subst k0.
+    cbn [map fst combine app]. unfold setf_slot at 1. unfold quote. cbn [fst snd].
+    cbn [run_inst]. cbn [String.eqb Ascii.eqb Bool.eqb andb].
+    cbn [snd] in Hfw. rewrite Hfw. cbn [bind].
+    assert (Hn : ~ In k (map fst done)).
+    { cbn [map fst] in Hnd. intro Hin. apply NoDup_remove_2 in Hnd. apply Hnd. apply in_or_app. left. exact Hin. }
+    rewrite slot_set_mid by exact Hn.
+    fold (run_inst e fl).
+    replace (done ++ (k, w) :: olds) with ((done ++ [(k, w)]) ++ olds) by (rewrite <- app_assoc; reflexivity).
+    rewrite (IH fws' (done ++ [(k, w)]) olds HF' Hk).
+    + rewrite <- app_assoc. reflexivity.
+    + rewrite map_app. cbn [map fst]. rewrite <- app_assoc. exact Hnd.
+Qed.
+
+Lemma strings_eqb_eq : forall a b, strings_eqb a b = true -> a = b.
+Proof.
+  induction a as [|x a IH]; destruct b as [|y b]; cbn [strings_eqb]; intro H; try discriminate; [reflexivity|].
+  apply andb_true_iff in H. destruct H as [H1 H2]. apply String.eqb_eq in H1. subst. f_equal. apply IH. exact H2.
+Qed.
+Lemma keys_nodupb_nodup : forall l, keys_nodupb l = true -> NoDup l.
+Proof.
+  induction l as [|k r IH]; intro H; [constructor|]. cbn [keys_nodupb] in H. apply andb_true_iff in H. destruct H as [H1 H2].
+  constructor; [|apply IH; exact H2]. intro Hin. apply negb_true_iff in H1.
+  assert (existsb (String.eqb k) r = true) by (apply existsb_exists; exists k; split; [exact Hin|apply String.eqb_refl]). congruence.
+Qed.
+
+Lemma env_ok_inst : forall e x, env_ok e -> env_ok (("inst", x) :: e).
+Proof.
+  intros e x He s Hs. cbn [lookup]. destruct ("inst" =? s) eqn:E; [|apply He; exact Hs].
+  apply String.eqb_eq in E. subst. vm_compute in Hs. discriminate.
+Qed.
+
+(* adding the binding of inst does not hide a flavor (no flavor is called inst) *)
+Lemma insts_in_inst : forall v e x, snap_safe_i v = true -> insts_in e v = true -> insts_in (("inst", x) :: e) v = true.
+Proof.
+  induction v using obj_ind2; intros e x Hs Hi; try reflexivity.
+  cbn [snap_safe_i] in Hs. apply andb_true_iff in Hs. destruct Hs as [Hf Hs]. apply negb_true_iff in Hf.
+  cbn [insts_in] in Hi |- *. apply andb_true_iff in Hi. destruct Hi as [Hi Hg]. apply andb_true_iff in Hi. destruct Hi as [Hl Hn].
+  cbn [lookup]. assert (("inst" =? f) = false) as -> by (rewrite String.eqb_sym; exact Hf).
+  rewrite Hl, Hn. cbn [andb]. clear Hl Hn.
+  induction slots as [|[k w] r IH]; [reflexivity|].
+  inversion H as [|? ? Hw Hr]; subst. cbn [snd] in Hw.
+  apply andb_true_iff in Hs. destruct Hs as [Hs1 Hs2]. apply andb_true_iff in Hg. destruct Hg as [Hg1 Hg2].
+  rewrite (Hw e x Hs1 Hg1). cbn [andb]. apply IH; assumption.
+Qed.
+
+(* Theorem 3: what the snapshot writes for a value -- instances included, nested without bound, every instance
+   variable going through ppValue again -- evaluates back to the value, in every environment that knows the flavors *)
+Theorem inst_value_reloads : forall v, snap_safe_i v = true -> forall e, env_ok e -> insts_in e v = true ->
+  exists f, pp_value v = Ok f /\ eval e f = Ok v.
+Proof.
+  induction v using obj_ind2; intros Hs e He Hi;
+    try (apply pp_value_eval; [exact He|exact Hs]).
+  - (* Inst *)
+    cbn [snap_safe_i] in Hs. apply andb_true_iff in Hs. destruct Hs as [Hf Hs]. apply negb_true_iff in Hf.
+    cbn [insts_in] in Hi. apply andb_true_iff in Hi. destruct Hi as [Hi Hg]. apply andb_true_iff in Hi. destruct Hi as [Hl Hn].
+    destruct (lookup e f) as [fv|] eqn:El; [|discriminate]. destruct fv; try discriminate.
+    apply strings_eqb_eq in Hl. apply keys_nodupb_nodup in Hn.
+    (* the forms of the instance variables *)
+    assert (Hfws : exists fws, Forall2 (fun kv fw => pp_value (snd kv) = Ok fw /\
+                                          forall cur, eval (("inst", Inst f cur) :: e) fw = Ok (snd kv)) slots fws).
+    { clear El Hl Hn. induction slots as [|[k w] r IH]; [exists []; constructor|].
+      inversion H as [|? ? Hw Hr]; subst. cbn [snd] in Hw.
+      apply andb_true_iff in Hs. destruct Hs as [Hs1 Hs2]. apply andb_true_iff in Hg. destruct Hg as [Hg1 Hg2].
+      destruct (IH Hr Hs2 Hg2) as (fws & HF).
+      destruct (Hw Hs1 e He Hg1) as (fw & Epp & _).
+      exists (fw :: fws). constructor; [|exact HF]. split; [exact Epp|]. intro cur.
+      destruct (Hw Hs1 (("inst", Inst f cur) :: e) (env_ok_inst e _ He) (insts_in_inst w e _ Hs1 Hg1)) as (fw' & Epp' & Ev').
+      rewrite Epp in Epp'. injection Epp' as <-. exact Ev'. }
+    destruct Hfws as (fws & HF).
+    exists (inst_let f (map (fun p => setf_slot (fst p) (snd p)) (combine (map fst slots) fws))). split.
+    + cbn [pp_value].
+      assert (Hgo : (fix go (l : list (string * obj)) : res (list obj) :=
+                       match l with
+                       | [] => Ok []
+                       | (k, w) :: r =>
+                           bind (pp_value w) (fun fw => bind (go r) (fun fs =>
+                             Ok (L [Sym "setf"; L [Sym "slot-value"; Sym "inst"; quote (Sym k)]; fw] :: fs)))
+                       end) slots = Ok (map (fun p => setf_slot (fst p) (snd p)) (combine (map fst slots) fws))).
+      { clear -HF. induction HF as [|[k w] fw r fws [Epp _] HF IH]; [reflexivity|].
+        cbn [snd] in Epp. rewrite Epp. cbn [bind]. rewrite IH. reflexivity. }
+      rewrite Hgo. reflexivity.
+    + rewrite (eval_inst_let e f _ _ _ _ _ _ _ El).
+      assert (HF' : Forall2 (fun kv fw => forall cur, eval (("inst", Inst f cur) :: e) fw = Ok (snd kv)) slots fws).
+      { clear -HF. induction HF as [|? ? ? ? [_ Hev] ? IH]; constructor; assumption. }
+      pose proof (run_inst_all e f slots fws [] ivars HF' Hl) as Hrun. cbn [app map] in Hrun. apply Hrun. exact Hn.
+Qed.
+
+(* non-vacuity and the contrast with InstanceLoadForm (instance.go:56), which make-load-form uses for an instance: it
+   puts the values of the instance variables into the form as they are, so an instance holding a list has a load form
+   that cannot be evaluated [C19-instance-load-form-raw] *)
+Definition ex_flavor : obj := Flv "blk" [("sa", Nil); ("sb", Fix 2)] true true true "".
+Definition ex_env : env := ("blk", ex_flavor) :: global_env.
+Definition ex_instance : obj :=
+  Inst "blk" [("sa", L [Fix 1; L [Fix 2; Str "two"]; Fix 3]); ("sb", Inst "blk" [("sa", Dot [Sym "a"] (Sym "b")); ("sb", Fix 2)])].
+Lemma ex_instance_ok : snap_safe_i ex_instance = true /\ insts_in ex_env ex_instance = true
+  /\ bind (pp_value ex_instance) (eval ex_env) = Ok ex_instance.
+Proof. repeat split; vm_compute; reflexivity. Qed.
+Lemma instance_load_form_raw_refuted :
+  bind (load_form (Inst "blk" [("sa", L [Fix 1; Fix 2; Fix 3]); ("sb", Fix 2)])) (eval ex_env) = Err ENotFunction
+  /\ bind (pp_value (Inst "blk" [("sa", L [Fix 1; Fix 2; Fix 3]); ("sb", Fix 2)])) (eval ex_env)
+     = Ok (Inst "blk" [("sa", L [Fix 1; Fix 2; Fix 3]); ("sb", Fix 2)]).
+Proof. split; vm_compute; reflexivity. Qed.
+
+(* a session with a flavor, an instance holding a list, a nested instance and the flavor itself, changed by send: the
+   extended guard holds and the decidable specification too (evaluated, as on every run; not covered by Theorem 2) *)
+Definition ex_flavor_history : list obj :=
+  [ L [Sym "defflavor"; Sym "blk"; L [Sym "sa"; L [Sym "sb"; Fix 2]]; Nil; Sym ":gettable-instance-variables";
+       Sym ":settable-instance-variables"; Sym ":inittable-instance-variables"];
+    L [Sym "defvar"; Sym "*bi*"; L [Sym "make-instance"; quote (Sym "blk"); Sym ":sa"; quote (L [Fix 1; Fix 2; Fix 3])]];
+    L [Sym "send"; Sym "*bi*"; Sym ":set-sb"; L [Sym "make-instance"; quote (Sym "blk"); Sym ":sa"; Sym "blk"]] ].
+Lemma ex_flavor_history_ok :
+  let s := run_or_empty ex_flavor_history in
+  sess_ok_x s = true /\ sess_ok s = false /\ meets_spec s = true /\ List.length (snapshot s) = 5.
+Proof. repeat split; vm_compute; reflexivity. Qed.
